@@ -12,7 +12,7 @@ import json
 import random
 import re
 
-from .. import core, e2e
+from .. import core, e2e, progs
 from ..past import render
 from ..proggen import random_program
 
@@ -81,8 +81,51 @@ def nests(rnd, n):
     return out
 
 
+REP_CHARS = {"SEMI": ";", "PUNCT": ",:(){}[]*%^~$@", "PLUS": "+", "MINUS": "-", "SLASH": "/", "BANG": "!", "AMP": "&", "BAR": "|",
+             "EQ": "=", "LT": "<", "GT": ">", "LB": "b", "LX": "xX", "LO": "oO", "LBU": "B", "LE": "eE", "HEXL": "acdfACDF",
+             "ALPHA": "gzQ", "UALPHA": "\u00e9\u03bb", "NUL": "\0", "WS": " \t\r", "NL": "\n", "HASH": "#", "DQ": '"', "SQ": "'",
+             "DOT": ".", "ZERO": "0", "DIG": "1379", "US": "_", "UNUM": "\u0663\u00b2", "OTHER": "\U0001F600\u20ac"}
+KIND_OF = {"Illegal": "Illegal", "Decimal": "Decimal", "Octal": "Octal", "Hexadecimal": "Hex", "Binary": "Binary", "Float": "Float",
+           "Char": "Char", "Byte": "Byte", "Str": "Str", "Assign": "Assign", "Plus": "PLUS", "Minus": "MINUS", "Slash": "SLASH",
+           "Semicolon": "SEMI", "Bang": "Bang", "LogicalAnd": "AndAnd", "LogicalOr": "OrOr", "Less": "Lt", "LessEqual": "Le",
+           "Greater": "Gt", "GreaterEqual": "Ge", "Equal": "EqEq", "BangEqual": "BangEq", "MatchArm": "Arm", "BitwiseAnd": "And",
+           "BitwiseOr": "Or", "LeftShift": "Shl", "RightShift": "Shr", "RangeEx": "RangeEx", "RangeInc": "RangeInc", "Dot": "Dot"}
+PUNCT_TYPES = {"Asterisk", "Modulo", "BitwiseXor", "BitwiseNot", "Comma", "Colon", "LeftParen", "RightParen", "LeftBrace",
+               "RightBrace", "LeftBracket", "RightBracket", "Dollar", "Filter"}
+
+
+def scanner_model(rep, tier):
+    """Scanner.tla: TLC checks IndexInBounds, Progress, Bounded and LineOK for every class string up to length 3 (4), and
+    (ScanGen) writes the token kinds it prescribes; the real scanner's tokens on a concrete text of each shape are
+    compared with them.  Agreement is evidence that the model is the implementation's; a difference is drift."""
+    from .. import tlcrun
+    cfg = "MC_Scanner" if tier == "quick" else "MC_Scanner4"
+    rep.add_tlc(tlcrun.require_ok(tlcrun.run_tlc("Scanner", cfg=cfg, workers=core.TLC_WORKERS, timeout=3000), "Scanner"))
+    cases, gres = progs.generate("ScanGen", timeout=1200)
+    rep.add_tlc(gres)
+    texts = []
+    for c in cases:
+        t = "".join(REP_CHARS[cl][(c["id"] + i) % len(REP_CHARS[cl])] for i, cl in enumerate(c["s"]))
+        texts.append(t)
+    res = core.run_cases([{"id": "scan%d" % k, "kind": "scan", "srcs": texts[k:k + 4000]} for k in range(0, len(texts), 4000)])
+    real = []
+    for k in range(0, len(texts), 4000):
+        real += res["scan%d" % k]["toks"]
+    drift = []
+    for c, t, toks in zip(cases, texts, real):
+        kinds = [("PUNCT" if x in PUNCT_TYPES else KIND_OF.get(x, "Word" if not x.startswith("PANIC") and x != "RUNAWAY" else x)) for x in toks]
+        want = [k for k in c["toks"] if k != "Eof"]
+        if kinds != want:
+            drift.append({"classes": c["s"], "text": t, "model": want, "scanner": kinds})
+    rep.notes["scanner_model_strings"] = len(cases)
+    rep.notes["scanner_model_drift"] = len(drift)
+    rep.notes["scanner_model_drift_samples"] = drift[:5]
+    rep.cov["evaluations"] += len(cases)
+
+
 def run(rep, tier, seed):
     core.build_harness()
+    scanner_model(rep, tier)
     # the stage machine itself: every stage hands over or diagnoses, diagnosed => not executed, it ends
     from .. import tlcrun
     rep.add_tlc(tlcrun.require_ok(tlcrun.run_tlc("Pipeline", workers=2, timeout=300), "Pipeline"))
